@@ -103,6 +103,9 @@ pub fn rule_forms() -> Vec<(&'static str, &'static str)> {
         ("<A>", "::t::X<A>"),
         // the parameters occur ONLY nested in the target (the shape of the documented Static<MultiAddress<A, B>> rule)
         ("<A, B>", "::t::Static<::t::Multi<A, B>>"),
+        // the same target text as the second form with the source names permuted (a result remembered under the
+        // target's text and the arguments must not be reused)
+        ("<B, A>", "::t::X<A, B>"),
     ]
 }
 
